@@ -69,7 +69,9 @@ def inlines(cfg, depth=None, inlink=False, max_n=4, allow=None):
     if 'auto' in kinds and not inlink:
         opts.append(st.sampled_from(['http://auto.example/alpha', 'https://auto.example/b/c']).map(lambda u: ['auto', u]))
     if 'email' in kinds and not inlink:
-        opts.append(st.sampled_from(['someone@example.com', 'a.b@c.org']).map(lambda u: ['email', u]))
+        opts.append(st.sampled_from(['someone@example.com', 'a.b@c.org', 'info@b\u00fccher.example', 'mailto:vente@soci\u00e9t\u00e9.example', 'j.m@m\u00fcnchen.example']).map(lambda u: ['email', u]))
+    if 'critic' in kinds and not inlink:
+        opts.append(st.tuples(st.sampled_from(['add', 'del', 'sub', 'hi', 'com']), text(cfg, 2), text(cfg, 2)).map(lambda t: ['critic', t[0], t[1][1], t[2][1]]))
     if 'img' in kinds:
         opts.append(st.tuples(text(cfg, 2), cfg.images, cfg.titles).map(lambda t: ['img', t[0][1], t[1], t[2]]))
     if 'esc' in kinds:
@@ -296,6 +298,8 @@ def ser_inl(xs):
             parts.append(x[1])
         elif k == 'smart':
             parts.append(SMART_SRC[x[1]])
+        elif k == 'critic':
+            parts.append({'add': '{++%s++}', 'del': '{--%s--}', 'hi': '{==%s==}', 'com': '{>>%s<<}'}[x[1]] % x[2] if x[1] != 'sub' else '{~~%s~>%s~~}' % (x[2], x[3]))
         elif k == 'cite':
             parts.append('cited[#' + x[1] + ']')
         elif k == 'gloss':
